@@ -12,6 +12,7 @@ import (
 	"strconv"
 	"strings"
 	"sync"
+	"sync/atomic"
 	"testing"
 	"testing/synctest"
 	"time"
@@ -25,7 +26,7 @@ import (
 
 func TestMain(m *testing.M) { stats.Main(m) }
 
-const ruleC05 = "rapid-generated end-to-end runs inside one testing/synctest bubble: a real http.Server{Handler: sse.Server{Provider: Joe{Replayer}}} and a real sse.Client over http.Transport, connected through net.Pipe wrapped in a cutting conn. Replayer in {Finite, Valid} x {automatic, manual IDs} large enough for everything published; 3..12 messages (multi-line data with CR/LF/CRLF, colons, leading spaces, field look-alikes; optional type, comments, Retry; 7% carry a further data line of 1000..20000 bytes; header-safe manual IDs); after 'connect, publish m0, wait' a script of 5..40 actions: publish next | arm a cut after n more response bytes (n drawn up to the size of what will be written, so cuts land in the status line, headers, chunk framing, inside and between events) | cut now | end the handler from the server side once the session has sent something | virtual sleep | wait for quiescence. Oracle: after the script, with no more cuts and a virtual sleep beyond the maximum backoff, the callback log equals exactly (ID, type, data) of m0, m1, ... in order; every reconnect carried Last-Event-Id == ID of the last event delivered before it; Joe did not panic; Connect returns the context's error on cancel and the bubble ends with no goroutine left. Non-trivial: at least one abrupt cut strictly inside an event's bytes and at least one message published while no session was subscribed. Distinct: FNV-64 of the JSON of the case."
+const ruleC05 = "rapid-generated end-to-end runs inside one testing/synctest bubble: a real http.Server{Handler: sse.Server{Provider: Joe{Replayer}}} and a real sse.Client over http.Transport, connected through net.Pipe wrapped in a cutting conn. Replayer in {Finite, Valid} x {automatic, manual IDs} large enough for everything published - or, for 40% of the finite ones, a ring of only 2..6 events that wraps, with a publish step skipped whenever it would evict the event the client has to resume from; 3..12 messages (multi-line data with CR/LF/CRLF, colons, leading spaces, field look-alikes; optional type, comments, Retry; 7% carry a further data line of 1000..20000 bytes; header-safe manual IDs); after 'connect, publish m0, wait' a script of 5..40 actions: publish next | arm a cut after n more response bytes (n drawn up to the size of what will be written, so cuts land in the status line, headers, chunk framing, inside and between events) | cut now | end the handler from the server side once the session has sent something | virtual sleep | wait for quiescence. Oracle: after the script, with no more cuts and a virtual sleep beyond the maximum backoff, the callback log equals exactly (ID, type, data) of m0, m1, ... in order; every reconnect carried Last-Event-Id == ID of the last event delivered before it; Joe did not panic; Connect returns the context's error on cancel - 25% of the clients use a context cancelled with a cause - without a further OnRetry, and the bubble ends with no goroutine left. Non-trivial: at least one abrupt cut strictly inside an event's bytes and at least one message published while no session was subscribed. Distinct: FNV-64 of the JSON of the case."
 
 // ---- case ---------------------------------------------------------------------------------
 
@@ -50,6 +51,13 @@ type Case struct {
 	IDs          []string  `json:"ids,omitempty"` // manual IDs
 	CapAdd       int       `json:"capadd,omitempty"`
 	RemoteCloses bool      `json:"remotecloses,omitempty"`
+	// SmallCap > 0 (finite replayer): the ring holds only this many events - fewer than are
+	// published in total, so it wraps - and a publish step is skipped whenever it would evict
+	// the event the client has to resume from ("large enough to hold what is published while
+	// a client is away" is then kept by construction).
+	SmallCap int `json:"smallcap,omitempty"`
+	// Cause: the client's request context is cancelled with a cause (WithCancelCause) at the end
+	Cause bool `json:"cause,omitempty"`
 }
 
 var dataPool = []string{"x", "hello", "a\nb", "a\r\nb", "a\rb", ": colon", " lead", "id: 9", "data: z", "retry: 1", "event: e", "", "\n", "trail\n", "é€", "a:b", "multi\n\nline"}
@@ -118,6 +126,10 @@ func gen(t *rapid.T) Case {
 	}
 	c.CapAdd = stats.Pick(t, 3, "capadd")
 	c.RemoteCloses = rapid.Bool().Draw(t, "remotecloses")
+	c.Cause = stats.Pct(t, "ctxcause") < 25
+	if !c.Valid && stats.Pct(t, "smallcap") < 40 {
+		c.SmallCap = 2 + stats.Pick(t, 5, "smallcapn")
+	}
 	return c
 }
 
@@ -256,7 +268,11 @@ func check(t *testing.T, c Case) (v *stats.Verdict) {
 			r, _ := sse.NewValidReplayer(100000*time.Hour, c.Auto)
 			rep = r
 		} else {
-			rep, _ = sse.NewFiniteReplayer(len(c.Msgs)+2+c.CapAdd, c.Auto)
+			n := len(c.Msgs) + 2 + c.CapAdd
+			if c.SmallCap > 0 {
+				n = c.SmallCap
+			}
+			rep, _ = sse.NewFiniteReplayer(n, c.Auto)
 		}
 		joe := &sse.Joe{Replayer: rep}
 		srv := &sse.Server{Provider: joe}
@@ -300,6 +316,11 @@ func check(t *testing.T, c Case) (v *stats.Verdict) {
 		}}
 
 		ctx, cancel := context.WithCancel(context.Background())
+		if c.Cause {
+			cc, ccancel := context.WithCancelCause(context.Background())
+			ctx, cancel = cc, func() { ccancel(errors.New("e2e: the cause the client's context is cancelled with")) }
+		}
+		var cancelled, retryAfterCancel atomic.Bool
 		req, _ := http.NewRequestWithContext(ctx, http.MethodGet, "http://e2e.invalid/events", nil)
 		var got []want
 		var expectHdr []string // expected Last-Event-Id of each request, from the client's point of view
@@ -313,6 +334,11 @@ func check(t *testing.T, c Case) (v *stats.Verdict) {
 				return tr.RoundTrip(r)
 			})},
 			Backoff: sse.Backoff{InitialInterval: time.Millisecond, MaxInterval: 5 * time.Millisecond},
+			OnRetry: func(error, time.Duration) {
+				if cancelled.Load() {
+					retryAfterCancel.Store(true)
+				}
+			},
 		}
 		conn := client.NewConnection(req)
 		conn.SubscribeToAll(func(e sse.Event) { got = append(got, want{e.LastEventID, e.Type, e.Data}) })
@@ -384,6 +410,16 @@ func check(t *testing.T, c Case) (v *stats.Verdict) {
 			}
 			switch s.Kind {
 			case "pub":
+				if c.SmallCap > 0 {
+					synctest.Wait()
+					if published-len(got) > c.SmallCap-2 {
+						v.Class("publish-skipped:would-evict-the-resume-point")
+						continue
+					}
+					if published >= c.SmallCap {
+						v.Class("ring-wrapped")
+					}
+				}
 				if f := pub(); f != "" {
 					fail("%s", f)
 				}
@@ -468,11 +504,16 @@ func check(t *testing.T, c Case) (v *stats.Verdict) {
 		}
 		panicMu.Unlock()
 
+		cancelled.Store(true)
 		cancel()
 		select {
 		case err := <-res:
-			if !errors.Is(err, context.Canceled) {
-				fail("Connect returned %v before the context was cancelled\n got %q\n headers %q", err, got, hdrs)
+			var ce *sse.ConnectionError
+			if !errors.Is(err, context.Canceled) || errors.As(err, &ce) {
+				fail("the context was cancelled (with a cause: %v) but Connect returned %v, not the context's error\n got %q\n headers %q", c.Cause, err, got, hdrs)
+			}
+			if retryAfterCancel.Load() {
+				fail("OnRetry was called after the request context had been cancelled (with a cause: %v)", c.Cause)
 			}
 		case <-time.After(time.Minute):
 			fail("Connect did not return after its context was cancelled")
